@@ -16,7 +16,7 @@ Class Num (F : Type) := {
   fopp : F -> F; fabs : F -> F; fsqrt : F -> F;
   fexp : F -> F; fsin : F -> F; fcos : F -> F; ftan : F -> F;
   facos : F -> F; fasin : F -> F; ftanh : F -> F; ferfc : F -> F;
-  ffloor : F -> F; flog : F -> F;
+  ffloor : F -> F; flog : F -> F; flog10 : F -> F;
   fatan2 : F -> F -> F; fpow : F -> F -> F; ffmod : F -> F -> F;
   flt : F -> F -> bool; fle : F -> F -> bool; feqb : F -> F -> bool;
   fofZ : Z -> F;              (* exact conversion of an integer *)
